@@ -163,4 +163,27 @@ def canonAlts : Alts → Nat → Val → Opts → Val
   | .cons c t rest, code, v, o => if c == code then canon t v o else canonAlts rest code v o
 end
 
+/-! ## Settings priority
+
+`TypeSettings.merge`: per-call option > struct tag > settings registered for the type.  A schema
+(`Ty`) carries the *effective* settings of each position; this is the merge that produces them (the
+harness computes it independently of serix's `merge`, through the public accessors). -/
+
+/-- The mergeable part of `serix.TypeSettings` that matters for the binary form (`none` = not set). -/
+structure TS where
+  lp : Option LP := none
+  code : Option Code := none
+  lexOrd : Option Bool := none
+  rules : Option Rules := none
+deriving Repr, DecidableEq
+
+/-- `hi.merge lo`: every setting `hi` has set (to whatever value, `false` / empty rules included)
+stays, the others are taken from `lo`. -/
+def TS.merge (hi lo : TS) : TS :=
+  { lp := hi.lp.orElse (fun _ => lo.lp), code := hi.code.orElse (fun _ => lo.code),
+    lexOrd := hi.lexOrd.orElse (fun _ => lo.lexOrd), rules := hi.rules.orElse (fun _ => lo.rules) }
+
+/-- `toMode`: `DeSeriModePerformLexicalOrdering` iff the effective flag is set *and* true. -/
+def TS.autoSort (t : TS) : Bool := t.lexOrd == some true
+
 end Hive.Serix
